@@ -49,16 +49,22 @@ def bh_exact(p):
 
 
 def features(p):
+    """structural class of a p-vector (kept coarse: it becomes part of failure signatures)"""
     p = list(p)
-    f = []
+    if len(p) == 1:
+        return "n=1"
+    return "ties" if len(set(p)) < len(p) else "distinct"
+
+
+def bucket_of(p):
+    p = list(p)
+    f = ["n=1"] if len(p) == 1 else []
     if len(set(p)) < len(p):
         f.append("ties")
     if any(x == 0 for x in p):
         f.append("zeros")
     if any(x == 1 for x in p):
         f.append("ones")
-    if len(p) == 1:
-        f.append("n=1")
     return "+".join(f) if f else "generic"
 
 
@@ -138,15 +144,15 @@ def fdr_section(ck):
         assert all(frac(a) == b for a, b in zip(pf, p))
         out, err = call(pf)
         feat = features(p)
-        ck.count(("fdr", tuple(p)), nontrivial=len(p) > 1, bucket="fdr:%s:%s" % ("exact" if exact else "float", feat))
+        ck.count(("fdr", tuple(p)), nontrivial=len(p) > 1, bucket="fdr:%s:%s" % ("exact" if exact else "float", bucket_of(p)))
         if err is not None or out is None:
-            ck.fail("fdr/raises-on-valid/" + feat, "fdr raised %s on a valid p-vector %s" % (err, pf), {"p": pf})
+            ck.fail("fdr/raises-on-valid", "fdr raised %s on a valid p-vector %s" % (err, pf), {"p": pf})
             continue
         n = len(p)
         if out.shape != (n,):
             ck.fail("fdr/shape", "fdr output shape %s for n=%d" % (out.shape, n), {"p": pf})
             continue
-        if 3 <= n <= 5 and feat == "ties" and not exact or (exact and n == 5 and feat == "ties+zeros"):
+        if 3 <= n <= 5 and feat == "ties" and (not exact or n == 5):
             ck.sample({"call": "fdr(%s)" % pf, "out": out.tolist()}, cap=3)
         # ---- property oracles on the implementation (independent of Coq)
         ref = bh_exact(p)
@@ -158,19 +164,19 @@ def fdr_section(ck):
                     "fdr(p)[%d] = %r but the Benjamini-Hochberg step-up value is %s (p=%s)" % (i, float(out[i]), float(ref[i]), pf),
                     {"p": pf, "out": out.tolist(), "bh": [float(v) for v in ref], "index": i})
         if np.any(out < 0) or np.any(out > 1) or np.any(np.isnan(out)):
-            ck.fail("fdr/outside-unit-interval/" + feat, "fdr(p) leaves [0,1]: %s" % out.tolist(), {"p": pf, "out": out.tolist()})
+            ck.fail("fdr/outside-unit-interval", "fdr(p) leaves [0,1]: %s" % out.tolist(), {"p": pf, "out": out.tolist()})
         if any(o[i] < p[i] - (0 if exact else TOL) for i in range(n)):
-            ck.fail("fdr/below-p/" + feat, "fdr(p) < p somewhere", {"p": pf, "out": out.tolist()})
+            ck.fail("fdr/below-p", "fdr(p) < p somewhere", {"p": pf, "out": out.tolist()})
         # order structure, exactly: p_i <= p_j -> q_i <= q_j ; ties get identical floats
         oi = np.argsort(np.array(pf), kind="stable")
         so = out[oi]
         if np.any(np.diff(so) < 0):
-            ck.fail("fdr/not-monotone/" + feat, "a smaller p-value has a larger fdr value", {"p": pf, "out": out.tolist()})
+            ck.fail("fdr/not-monotone", "a smaller p-value has a larger fdr value", {"p": pf, "out": out.tolist()})
         # permutation equivariance, exactly
         perm = rng.permutation(n)
         out2, _ = call([pf[k] for k in perm])
         if out2 is None or not np.array_equal(out2, out[perm]):
-            ck.fail("fdr/not-permutation-equivariant/" + feat, "fdr(p[perm]) != fdr(p)[perm]",
+            ck.fail("fdr/not-permutation-equivariant", "fdr(p[perm]) != fdr(p)[perm]",
                     {"p": pf, "perm": perm.tolist(), "out": out.tolist(), "out_perm": None if out2 is None else out2.tolist()})
         # ---- correspondence term
         if exact:
@@ -215,20 +221,29 @@ def fdr_threshold_section(ck, ep, sps, build_ok):
     N = ck.n(400, 4000)
     for it in range(N):
         n = int(rng.integers(1, 17))
-        p = gen_exact_p(rng, n)
-        pf = [float(v) for v in p]
         # alpha = n * a / 2^10 so that alpha / n and (alpha / n) * k are exact
         a = int(rng.integers(1, max(2, 1024 // n)))
         if rng.random() < 0.3:
             a = int(rng.integers(1, 8))
         alpha = Fraction(n * a, 1024)
+        onlattice = it % 2 == 0
+        if onlattice:
+            p = gen_exact_p(rng, n)
+        else:
+            # dyadic grid with values planted exactly ON the step-up line a*(k+1)/1024 (strict vs non-strict comparison)
+            p = [Fraction(int(v), 1024) for v in rng.integers(0, min(1025, 2 * a * n + 2), n)]
+            for _ in range(int(rng.integers(1, 4))):
+                k = int(rng.integers(0, n))
+                if a * (k + 1) <= 1024:
+                    p[int(rng.integers(0, n))] = Fraction(a * (k + 1), 1024)
+        pf = [float(v) for v in p]
         try:
             th = float(ep.fdr_threshold(np.array(pf), float(alpha)))
         except Exception as e:  # noqa
             ck.fail("fdr_threshold/raises", "fdr_threshold raised %r" % e, {"p": pf, "alpha": float(alpha)})
             continue
         feat = features(p)
-        ck.count(("fdrth", tuple(p), alpha), nontrivial=True, bucket="fdr_threshold:" + feat)
+        ck.count(("fdrth", tuple(p), alpha), nontrivial=True, bucket="fdr_threshold:" + bucket_of(p))
         # oracle: BH step-up threshold = largest sorted p below its line, else alpha/n
         sp = sorted(p)
         crit = [sp[k] for k in range(n) if sp[k] < alpha / n * (k + 1)]
@@ -238,7 +253,7 @@ def fdr_threshold_section(ck, ep, sps, build_ok):
                     "fdr_threshold(p, %s) = %r, step-up threshold is %s" % (float(alpha), th, float(want)),
                     {"p": pf, "alpha": float(alpha), "got": th, "want": float(want)})
         # consistency with fdr: (alpha <= 1, some rejection) p_i <= threshold <-> fdr_i < alpha
-        if crit and alpha <= 1:
+        if crit and alpha <= 1 and onlattice:
             q = np.asarray(ep.fdr(np.array(pf)))
             lhs = np.array(pf) <= th
             rhs = q < float(alpha)
@@ -614,14 +629,18 @@ def contrast_section(ck):
                     cmatq(Vq), cmatq(Wq), cq(Fraction(1, 10 ** 10)), cql(e), cq(b), cmatq(Wq), cq(frac(st))),
                     "F/model-vs-impl/%s" % name, "model and %s disagree on the multi-row F statistic" % name, rep)
             else:
-                # labs as coded: the inverse is taken of np.maximum(V, tiny) (model: labs_floor)
-                tq = frac(1e-50)
+                # labs as coded: the inverse is taken of np.maximum(V, tiny) (model: labs_floor); a dyadic floor keeps the rationals small
+                tf_ = 2.0 ** -20
+                tq = frac(tf_)
+                cl = mk([[float(x)] for x in e], [[[float(x)] for x in r] for r in Vq], 20.0, "F", tiny=tf_)
+                stl = float(np.ravel(cl.stat(float(b)))[0])
                 Vl = [[max(x, tq) for x in r] for r in Vq]
                 Wl = [[Fraction(int(x.p), int(x.q)) for x in row] for row in
                       sympy.Matrix([[sympy.Rational(x.numerator, x.denominator) for x in r] for r in Vl]).inv().tolist()]
-                add_term("is_inverse_q (labs_floor labs_def_tiny %s) %s && qrelclose %s (fstat_q %s %s %s) %s" % (
-                    cmatq(Vq), cmatq(Wl), cq(Fraction(1, 10 ** 9)), cql(e), cq(b), cmatq(Wl), cq(frac(st))),
-                    "F/model-vs-impl/labs-floored", "model (with the element-wise floor, as coded) and labs disagree on the multi-row F statistic", rep)
+                add_term("is_inverse_q (labs_floor %s %s) %s && qrelclose %s (fstat_q %s %s %s) %s" % (
+                    cq(tq), cmatq(Vq), cmatq(Wl), cq(Fraction(1, 10 ** 9)), cql(e), cq(b), cmatq(Wl), cq(frac(stl))),
+                    "F/model-vs-impl/labs-floored", "model (with the element-wise floor, as coded) and labs disagree on the multi-row F statistic",
+                    dict(rep, tiny=tf_, F_labs=stl))
         # unimodular recombination of the rows (fmri; labs when covariances stay positive)
         M = np.eye(dim, dtype=int)
         for _ in range(int(rng.integers(1, 5))):
@@ -671,6 +690,86 @@ def contrast_section(ck):
     ck.section("contrast", stat_cases=NA, algebra_cases=NB, pipeline_cases=NC, F_cases=NE, tail_points=int(tgrid.size), model_terms=len(terms))
 
 
+# ------------------------------------------------------------------ LikelihoodModelResults
+def results_section(ck):
+    from nipy.algorithms.statistics.models.regression import OLSModel
+    rng = ck.rng("results")
+    build_ok = ck.build is not None and ck.build.ok
+    terms, meta = [], []
+    N = ck.n(80, 800)
+    for it in range(N):
+        n, p = int(rng.integers(6, 14)), int(rng.integers(2, 5))
+        X = rng.integers(-3, 4, (n, p)).astype(float)
+        X[:, 0] = 1.0
+        if np.linalg.matrix_rank(X) < p:
+            continue
+        nv = int(rng.integers(1, 4))
+        Y = rng.integers(-20, 21, (n, nv)).astype(float) * 10.0 ** float(rng.integers(-2, 3))
+        r = OLSModel(X).fit(Y)
+        theta, cov, disp = np.asarray(r.theta), np.asarray(r.cov), np.atleast_1d(np.asarray(r.dispersion, dtype=float))
+        if np.any(disp <= 0):
+            continue
+        q = int(rng.integers(1, p + 1))
+        while True:
+            C = rng.integers(-2, 3, (q, p)).astype(float)
+            if np.linalg.matrix_rank(C) == q:
+                break
+        ck.count(("results", it), nontrivial=True, bucket="results:q%d" % q)
+        rep = {"X": X.tolist(), "Y": Y.tolist(), "C": C.tolist()}
+        # t contrast on the first row
+        c = C[0]
+        T = r.Tcontrast(c)
+        eff, sd, t = (np.atleast_1d(np.asarray(x, dtype=float)) for x in (T.effect, T.sd, T.t))
+        v = float(c @ cov @ c)
+        if not (np.allclose(eff, c @ theta, rtol=1e-12, atol=1e-12) and np.allclose(sd * sd, v * disp, rtol=1e-10)
+                and np.allclose(t * sd, eff, rtol=1e-10, atol=1e-12) and T.df_den == n - p):
+            ck.fail("results/t-not-effect-over-sd", "Tcontrast: t*sd != effect, sd^2 != c cov c' * dispersion, or df_den != n-p",
+                    dict(rep, effect=eff.tolist(), sd=sd.tolist(), t=t.tolist()))
+        tcol = np.atleast_1d(np.asarray(r.t(column=1), dtype=float))
+        e1 = np.zeros(p); e1[1] = 1
+        if not np.allclose(tcol, np.atleast_1d(r.Tcontrast(e1).t), rtol=1e-10, atol=1e-12):
+            ck.fail("results/t-column-vs-Tcontrast", "results.t(column=1) differs from Tcontrast(e_1).t", rep)
+        # F contrast: value, one row = t^2, df, row-space invariance
+        Fr = r.Fcontrast(C)
+        F = np.atleast_1d(np.asarray(Fr.F, dtype=float))
+        ct = C @ theta
+        Vc = C @ cov @ C.T
+        want = np.array([ct[:, k] @ np.linalg.solve(Vc, ct[:, k]) / (q * disp[k]) for k in range(nv)])
+        if not np.allclose(F, want, rtol=1e-8) or Fr.df_num != q or Fr.df_den != n - p:
+            ck.fail("results/F-not-quadratic-form-over-q/q%d" % q, "Fcontrast F = %s, expected (C theta)' (C cov C')^-1 (C theta) / (q dispersion) = %s; df_num=%r" % (F.tolist(), want.tolist(), Fr.df_num),
+                    dict(rep, F=F.tolist(), expected=want.tolist()))
+        F1 = np.atleast_1d(np.asarray(r.Fcontrast(c).F, dtype=float))
+        if not np.allclose(F1, t * t, rtol=1e-9, atol=1e-300):
+            ck.fail("results/F-one-row-not-t-squared", "Fcontrast(c).F = %s but Tcontrast(c).t^2 = %s" % (F1.tolist(), (t * t).tolist()), rep)
+        M = np.eye(q)
+        for _ in range(3):
+            i, j = rng.integers(0, q, 2)
+            if i != j:
+                M[i] += float(rng.integers(-2, 3)) * M[j]
+        M = M[rng.permutation(q)]
+        F2 = np.atleast_1d(np.asarray(r.Fcontrast(M @ C).F, dtype=float))
+        if not np.allclose(F2, F, rtol=1e-8):
+            ck.fail("results/F-not-rowspace-invariant/q%d" % q, "Fcontrast(M C) = %s != Fcontrast(C) = %s for unimodular M" % (F2.tolist(), F.tolist()), dict(rep, M=M.tolist()))
+        # model comparison (voxel 0): g_T with the recorded sd as the sqrt oracle (contract checked to 1e-10), g_F1 with 1/v
+        vd = frac(v) * frac(float(disp[0]))
+        tol = Fraction(1, 10 ** 9)
+        terms.append("sqrt_tbl_close %s %s && qrelclose %s (g_T (Qops %s) %s %s %s) %s" % (
+            cq(tol), ctbl([(vd, frac(float(sd[0])))]), cq(tol), ctbl([(vd, frac(float(sd[0])))]),
+            cq(frac(float((c @ theta)[0]))), cq(frac(v)), cq(frac(float(disp[0]))), cq(frac(float(t[0])))))
+        meta.append(("results/model-vs-impl/T", "model g_T and Tcontrast disagree", dict(rep, t=t.tolist())))
+        if v > 0:
+            terms.append("qrelclose %s (g_F1 (Qops []) %s %s %s) %s" % (
+                cq(tol), cq(frac(float((c @ theta)[0]))), cq(1 / frac(v)), cq(frac(float(disp[0]))), cq(frac(float(F1[0])))))
+            meta.append(("results/model-vs-impl/F1", "model g_F1 and Fcontrast (one row) disagree", dict(rep, F=F1.tolist())))
+    if build_ok:
+        res = ck.coq_bools(HDRC, terms, name="results")
+        ck.cov["traces_validated_against_impl"] += len(res)
+        for ok, (sig, what, rep) in zip(res, meta):
+            if not ok:
+                ck.fail(sig, what, rep)
+    ck.section("results", cases=N, model_terms=len(terms))
+
+
 def run(ck):
     ck.cov["rule"] = ("fdr: exhaustive p-vectors of length <= 3 (4 thorough) over a 6-point grid + random vectors n<=16 on the "
                       "exactness lattice m*lcm(1..n)/2^40 with planted zeros/ones/ties (exact model comparison) + random float "
@@ -683,5 +782,6 @@ def run(ck):
     fdr_section(ck)
     t2 = time.time()
     contrast_section(ck)
+    results_section(ck)
     t3 = time.time()
     ck.section("timing", build_and_overlay_s=round(t1 - t0, 1), fdr_s=round(t2 - t1, 1), contrast_s=round(t3 - t2, 1))
